@@ -255,6 +255,9 @@ func (g *lexGen) genRealText() string {
 var numberLikeNames = []string{
 	"1e", "e5", "--1", "+-1", "1.2.3", "16#", "37#1", "1#0", "8#9", "16#-5", "+16#FF", "1e+", ".", "-", "+", "-.", "1e5e5",
 	"1..2", "0x10", "1,5", "1+1", "1-1", "12a", "a12", "#5", "5#", "1e1.5", ".e5", "e", "E", "1ee5",
+	// radix notation with a base outside 2..36 or digits outside the base
+	"0#12", "00#9", "0#017", "0#0x1F", "0#0", "0#", "1#1", "1#0", "36#!", "2#2", "10#1a", "37#z", "99#1", "100#1",
+	"2#-1", "16#ff.5", "0#0b1", "0#0o7", "0#1_0", "16#0x1F", "16#1_0", "8#0o7", "2#0b1", "-2#1", "2##1",
 }
 
 var goFloatNames = []string{"0x1p4", "1_0", "Inf", "NaN", "inf", "nan", "+Inf", "-inf", "Infinity", "infinity", "0X1P-2", "1_000.5", "0x.8p1", "1_0e1_0", "iNf"}
@@ -263,6 +266,21 @@ func (g *lexGen) genName() string {
 	switch g.draw(6, "nameclass") {
 	case 0:
 		g.feat["number-like-name"] = true
+		if g.draw(3, "radixlike") == 0 {
+			// base#digits with any base 0..99 and digits that may carry one
+			// of Go's base prefixes; used when the PLRM grammar makes it a name
+			base := g.draw(100, "base")
+			digits := []string{"", "0x", "0X", "0b", "0o", "0"}[g.draw(6, "digitprefix")] +
+				rapid.StringMatching(`[0-9a-zA-Z]{1,4}`).Draw(g.t, "digits")
+			s := strconv.Itoa(base) + "#" + digits
+			if base < 10 && g.draw(4, "leadzero") == 0 { // at most two base digits
+				s = "0" + s
+			}
+			if ClassifyNumber(s) == "" {
+				g.feat["radix-like-name"] = true
+				return s
+			}
+		}
 		return numberLikeNames[g.draw(len(numberLikeNames), "numlike")]
 	case 1:
 		if !g.opts.NoGoFloatNames {
